@@ -59,6 +59,11 @@ func genC16One(t *rapid.T) c16Case {
 	}
 	inits := []uint64{0, 0, 1, c.Seg, c.Seg + 1}
 	c.Prog = pgen.Gen(t, pgen.Opts{MinMods: 1, MaxMods: 4, InitialBlocks: inits, ForceStoreOutput: true})
+	if rapid.IntRange(0, 3).Draw(t, "c16siblings") == 0 {
+		// every stage holds two stores: the modules of one layer are executed concurrently and their errors collected
+		// afterwards, another path than the one a module alone in its layer takes
+		c.Prog = pgen.GenChainOpts(t, rapid.IntRange(1, 2).Draw(t, "c16depth"), inits, pgen.ChainOpts{Siblings: true})
+	}
 	c.Run = genRun(t, c.Prog, c.Seg, c.Head)
 	c.Run.JobOrder = nil
 	c.Run.Workers = rapid.IntRange(1, 3).Draw(t, "c16workers")
@@ -175,6 +180,11 @@ func runC16(c c16Case, faults []world.Fault, failMod string, failAt uint64) (run
 	}
 	remote := &world.Remote{Faults: faults, Limit: c.Limit}
 	cfg := world.Config{Dir: dir, Seg: c.Seg, Workers: c.Run.Workers, Final: c.Run.Final, Steps: chainFor(c.Run, c.Head), Remote: remote, Timeout: 60 * time.Second}
+	if failMod != "" {
+		// a request whose module fails deterministically ends at the first execution of that block; one that keeps
+		// re-sending the job makes "progress" for ever: four minutes of that are enough
+		cfg.MaxWindows = 4
+	}
 	var out runOut
 	out.res = world.Run(prog.Modules(), world.Request{Prod: c.Run.Prod, Start: int64(c.Run.Start), Stop: c.Run.Stop, Output: c.Run.Output}, cfg)
 	return out, remote
@@ -267,7 +277,7 @@ func firstLine(err error) string {
 
 func TestC16(t *testing.T) {
 	r := ev.Get("C16", "Faults")
-	r.Rule = "rapid, batches of 12 cases run concurrently (every retry sleeps >= 1 s in the real back-off): generated program + request with 2..4 back-filled segments on the real work.RemoteWorker over a fake gRPC client/stream pair in front of the exported Tier2Service.ProcessRange; one case in three (when there are 2..3 workers) the tier2 service admits fewer concurrent calls than there are workers and turns the others down for real; transient plan = 1..3 faults (n-th call; error before the call, 'service currently overloaded', stream dropped after j messages with the server context cancelled (reported as unavailable, or as canceled by the remote end), stream dropped after the job wrote its files): the request must complete and satisfy the C01 oracle; deterministic plan = a module of the graph panics at block k (one case in eight: a module reading only a mapper whose outputs an earlier request cached, so that the failing job does not read the chain) (half of the time with 1..2 transient faults on the first calls too): the request must end with an error mapped to invalid_argument, deliver only blocks < k equal to the sequential execution's, nothing after the error, and not retry for ever; non-trivial = a fault that hits after the job produced output, or k inside the back-filled part"
+	r.Rule = "rapid, batches of 12 cases run concurrently (every retry sleeps >= 1 s in the real back-off): generated program + request with 2..4 back-filled segments on the real work.RemoteWorker over a fake gRPC client/stream pair in front of the exported Tier2Service.ProcessRange; one case in three (when there are 2..3 workers) the tier2 service admits fewer concurrent calls than there are workers and turns the others down for real; transient plan = 1..3 faults (n-th call; error before the call, 'service currently overloaded', stream dropped after j messages with the server context cancelled (reported as unavailable, or as canceled by the remote end), stream dropped after the job wrote its files): the request must complete and satisfy the C01 oracle; deterministic plan = a module of the graph panics at block k (one program in four has two stores in every stage, so that the failing module is executed concurrently with another one of its layer; one case in eight: a module reading only a mapper whose outputs an earlier request cached, so that the failing job does not read the chain) (half of the time with 1..2 transient faults on the first calls too): the request must end with an error mapped to invalid_argument, deliver only blocks < k equal to the sequential execution's, nothing after the error, and not retry for ever; non-trivial = a fault that hits after the job produced output, or k inside the back-filled part"
 	rapid.Check(t, func(rt *rapid.T) {
 		var batch c16Batch
 		n := 12
@@ -303,6 +313,9 @@ func TestC16(t *testing.T) {
 			}
 			if c.FailMod != "" {
 				cl = append(cl, "deterministic")
+				if strings.HasPrefix(c.FailMod, "side_") || (strings.HasPrefix(c.FailMod, "store_") && c.Prog.Graph.Index("side_0") >= 0) {
+					cl = append(cl, "failing-module-shares-its-layer")
+				}
 				if len(c.Faults) > 0 {
 					cl = append(cl, "deterministic-after-transient-faults")
 				}
